@@ -380,6 +380,8 @@ func b2i(b bool) int {
 @*/
 
 /*@ func (self *Compiler) compileCallExpr
+    split b2i(node.Base.Kind() == ast.IdentExpressionKind) in 0..1
+    splitcond at 1 :: node.IsSpawn
     assumes @throw-and-spawn-yield-a-value (node.IsSpawn ==> node.ResultType.Kind() != ast.NullTypeKind) && (node.Base.Kind() == ast.IdentExpressionKind && node.Base.(ast.AnalyzedIdentExpression).Ident.Ident() == "throw" ==> len(node.Arguments.List) == 1 && node.ResultType.Kind() != ast.NullTypeKind)
     loop 1 invariant ghost(depth) == entry(ghost(depth)) + (len(node.Arguments.List) - 1 - i) && i >= -1
     ghostat @call-through-a-value before-each self.insert(newPrimitiveInstruction(Opcode_Call_Val) :: depth = ghost(depth) - 2 - len(node.Arguments.List) + b2i(node.ResultType.Kind() != ast.NullTypeKind)
